@@ -2,6 +2,7 @@ import WM.Lemmas.IndexStats
 import WM.Lemmas.IndexGroup
 import WM.Lemmas.IndexLayout
 import WM.Lemmas.IndexBuild
+import WM.Lemmas.IndexPartition
 /-!
 # C06 — segment layout is invisible
 
@@ -38,10 +39,54 @@ the single optimised build of the dictionary's final documents holds. -/
 theorem content (t : Toc) (sp : State) (hwf : t.WF) (h : Rel t sp)
     (hist : List (List Op × Ending × SEnd)) (hok : HistOK t sp hist) :
     ∃ t' sp' tref, lockstep t sp hist = .ok (t', sp') ∧ buildOnce sp'.schema sp'.docs = .ok tref ∧
-      t'.schema = tref.schema ∧ t'.content.Perm tref.content := by
-  obtain ⟨t', sp', h1, _, rel'⟩ := history_sim t sp hwf h hist hok
-  obtain ⟨tref, h2, _, hs, hc⟩ := buildOnce_content sp'.schema sp'.docs (spec_docs_fit t' sp' rel')
-  exact ⟨t', sp', tref, h1, h2, by rw [hs, rel'.schema], rel'.docs.trans hc.symm⟩
+      t'.WF ∧ tref.WF ∧ t'.schema = tref.schema ∧ t'.content.Perm tref.content := by
+  obtain ⟨t', sp', h1, wf', rel'⟩ := history_sim t sp hwf h hist hok
+  obtain ⟨tref, h2, wfr, hs, hc⟩ := buildOnce_content sp'.schema sp'.docs (spec_docs_fit t' sp' rel')
+  exact ⟨t', sp', tref, h1, h2, wf', wfr, by rw [hs, rel'.schema], rel'.docs.trans hc.symm⟩
+
+/-- **postings_content.** The term index is determined by the content.  (1) `iter_postings()` of a
+whole well-formed index (deleted documents filtered) is, as a multiset, exactly the postings of the
+visible data of the live documents at their global numbers.  (2) Hence two well-formed indexes with
+the same schema and the same content (any two layouts — e.g. `t'` and `tref` of `content`) hold
+the same multiset of (field, term, weight, value) postings.  (3) The posting read path:
+`reader.postings(f, t)` yields exactly the numbers of the live documents carrying the term. -/
+theorem postings_content :
+    (∀ (t : Toc), t.WF → (globalPosts t.schema t.segs 0).Perm
+        ((liveGlobal t.segs 0).flatMap (fun q => docPostings (restrict t.schema q.1) q.2))) ∧
+    (∀ (t1 t2 : Toc), t1.WF → t2.WF → t1.schema = t2.schema → t1.content.Perm t2.content →
+      ((globalPosts t1.schema t1.segs 0).map (fun p => (p.fld, p.term, p.w, p.v))).Perm
+        ((globalPosts t2.schema t2.segs 0).map (fun p => (p.fld, p.term, p.w, p.v)))) ∧
+    (∀ (t : Toc), t.WF → ∀ f tm n, n ∈ t.postingDocs f tm ↔
+      ∃ q ∈ liveGlobal t.segs 0, q.2 = n ∧ (restrict t.schema q.1).hasTerm f tm = true) :=
+  ⟨fun t hwf => globalPosts_perm t.schema t.segs 0 (fun s hs => (hwf s hs).posts),
+   fun t1 t2 h1 h2 _ hc => (globalPosts_content t1 h1).trans
+     (((hc.flatMap_right _).map _).trans (globalPosts_content t2 h2).symm),
+   fun t hwf f tm n => postingDocs_exact t hwf f tm n⟩
+
+/-- **partition_invisible.** The partition of the additions into commits is invisible.
+(1) At the level of the specification: any two ways of cutting the same list of added documents
+into committed sessions reach the same dictionary state.  (2) For the index: the same, each session
+committed under its own re-arranging merge policy — both histories succeed, stay well-formed and
+hold the same documents.  (3) Within a history: after any calls `ops`, adding `adds` in the same
+writer session or committing first and adding them through a second writer gives the same
+content. -/
+theorem partition_invisible :
+    (∀ (sp : State) (p1 p2 : List (List DocRec)), p1.flatten = p2.flatten → sp.addSessions p1 = sp.addSessions p2) ∧
+    (∀ (t : Toc) (sp : State), t.WF → Rel t sp → ∀ (p1 p2 : List (List DocRec × Plan)),
+      (∀ x ∈ p1, PlanOK x.2) → (∀ x ∈ p2, PlanOK x.2) →
+      (∀ x ∈ p1, ∀ d ∈ x.1, d.fits sp.schema = true) → (∀ x ∈ p2, ∀ d ∈ x.1, d.fits sp.schema = true) →
+      (p1.map (·.1)).flatten = (p2.map (·.1)).flatten →
+      ∃ ta tb, t.history (p1.map (fun x => (x.1.map Op.add, Ending.commit x.2))) = .ok ta ∧
+        t.history (p2.map (fun x => (x.1.map Op.add, Ending.commit x.2))) = .ok tb ∧
+        ta.WF ∧ tb.WF ∧ ta.schema = tb.schema ∧ ta.content.Perm tb.content) ∧
+    (∀ (t : Toc) (sp : State), t.WF → Rel t sp → ∀ (ops : List Op) (adds : List DocRec) (p p1 p2 : Plan),
+      PlanOK p → PlanOK p1 → PlanOK p2 → RunOK t.writer sp.open_ ops →
+      ∃ ta tb, t.history [(ops ++ adds.map .add, .commit p)] = .ok ta ∧
+        t.history [(ops, .commit p1), (adds.map .add, .commit p2)] = .ok tb ∧
+        ta.WF ∧ tb.WF ∧ ta.schema = tb.schema ∧ ta.content.Perm tb.content) :=
+  ⟨State.addSessions_partition,
+   fun t sp hwf h p1 p2 h1 h2 hf1 hf2 hs => WM.Index.partition_invisible t sp hwf h p1 p2 h1 h2 hf1 hf2 hs,
+   fun t sp hwf h ops adds p p1 p2 hp hp1 hp2 hok => session_split_adds t sp hwf h ops adds p p1 p2 hp hp1 hp2 hok⟩
 
 /-- **postings_renumber.** `add_reader` of a well-formed segment never raises; the postings it
 feeds to the pool are the segment's live postings of schema fields with each doc number `i`
@@ -176,6 +221,20 @@ theorem group_adjacent :
    fun w plan t' h s hs g hg => group_merge w plan t' h s hs g hg,
    fun s l G hG => group_delete s l G hG⟩
 
+/-- **group_history.** The composition of (1) and (2) over a history: a writer adds the block `g`
+(between other documents) and commits; afterwards any number of writers add documents and commit,
+each under its own re-arranging merge policy (NO_MERGE, MERGE_SMALL, OPTIMIZE, …) — through every
+one of these merges the members of `g` stay adjacent and in order among the live documents of one
+segment of the final index.  (Sessions that delete or change the schema after the group was
+committed are covered by the single-step facts (2), (3) only.) -/
+theorem group_history (t : Toc) (pre g post : List DocRec) (hne : g ≠ []) (plan : Plan) (t1 : Toc)
+    (h1 : t.session ((pre ++ g ++ post).map .add) (.commit plan) = .ok t1)
+    (hfit : ∀ d ∈ pre ++ g ++ post, d.fits t.schema = true)
+    (later : List (List DocRec × Plan)) (hp : ∀ x ∈ later, PlanOK x.2) (t2 : Toc)
+    (h2 : t1.history (later.map (fun x => (x.1.map Op.add, Ending.commit x.2))) = .ok t2) :
+    t2.schema = t.schema ∧ ∃ s ∈ t2.segs, g.map (restrict t.schema) <:+: s.liveDocs.map (restrict t.schema) :=
+  WM.Index.group_history t pre g post hne plan t1 h1 hfit later hp t2 h2
+
 /-! ### non-vacuity -/
 
 namespace Ex
@@ -223,5 +282,62 @@ example : ({ schema := Ex.sc, segs := [Ex.seg], gen := 3 } : Toc).writer.WF ∧
   ⟨Toc.writer_wf _ (by intro s hs; simp only [List.mem_singleton] at hs; subst hs; exact Ex.seg_wf),
    ⟨rfl, by decide⟩,
    ⟨EndRel.commit _ planOptimize_ok, ⟨trivial, trivial, trivial⟩, fun _ _ => trivial⟩⟩
+
+namespace Ex
+def tTwo : Toc := { schema := sc, segs := [segA, segB], gen := 2 }
+def tOne : Toc := { schema := sc, segs := [segBA], gen := 1 }
+def spTwo : State := { schema := sc, docs := [restrict sc (doc 0 3), restrict sc (doc 2 3)] }
+def calls : List Op := [.add (restrict sc (doc 7 8)), .delBy (.pred (fun d => d.key == 0)), .add (restrict sc (doc 8 8))]
+end Ex
+
+/-- `layout_invisible` is not vacuous: the two layouts of the `stats` example are related to one
+    dictionary state, the calls (add, delete by query, add) are layout-free and admissible on both;
+    under OPTIMIZE on one and NO_MERGE on the other the layouts differ and the documents agree. -/
+example : Ex.tTwo.WF ∧ Ex.tOne.WF ∧ Rel Ex.tTwo Ex.spTwo ∧ Rel Ex.tOne Ex.spTwo ∧
+    (∀ op ∈ Ex.calls, op.layoutFree = true) ∧
+    RunOK Ex.tTwo.writer Ex.spTwo.open_ Ex.calls ∧ RunOK Ex.tOne.writer Ex.spTwo.open_ Ex.calls ∧
+    (Ex.tTwo.session Ex.calls (.commit planOptimize)).toOption.map (fun t => t.segs.map (fun s => s.liveDocs.map (·.key)))
+      = some [[7, 8, 2]] ∧
+    (Ex.tOne.session Ex.calls (.commit planNoMerge)).toOption.map (fun t => t.segs.map (fun s => s.liveDocs.map (·.key)))
+      = some [[2], [7, 8]] :=
+  ⟨by intro s hs; simp only [Ex.tTwo, List.mem_cons, List.not_mem_nil, or_false] at hs
+      rcases hs with rfl | rfl <;> exact ⟨by decide, by decide, by decide, by decide⟩,
+   by intro s hs; simp only [Ex.tOne, List.mem_singleton] at hs; subst hs; exact ⟨by decide, by decide, by decide, by decide⟩,
+   ⟨rfl, by decide⟩, ⟨rfl, by decide⟩, by decide,
+   ⟨trivial, trivial, trivial, trivial⟩, ⟨trivial, trivial, trivial, trivial⟩, by decide, by decide⟩
+
+/-- `group_adjacent` (1)+(2) on a concrete writer: over the segment with a deletion, the writer adds
+    the block 5, 6 between two other documents; after an optimising commit the block is adjacent,
+    after the live documents 0, 2 of the old segment (which stay adjacent too). -/
+example : let w : Writer := { schema := Ex.sc, segs := [Ex.seg], gen := 3,
+                              ndocs := [restrict Ex.sc (Ex.doc 4 1), restrict Ex.sc (Ex.doc 5 1), restrict Ex.sc (Ex.doc 6 1),
+                                        restrict Ex.sc (Ex.doc 7 1)],
+                              pool := allPostings [restrict Ex.sc (Ex.doc 4 1), restrict Ex.sc (Ex.doc 5 1),
+                                                   restrict Ex.sc (Ex.doc 6 1), restrict Ex.sc (Ex.doc 7 1)],
+                              added := true }
+    w.ndocs = [restrict Ex.sc (Ex.doc 4 1)] ++ [restrict Ex.sc (Ex.doc 5 1), restrict Ex.sc (Ex.doc 6 1)] ++ [restrict Ex.sc (Ex.doc 7 1)] ∧
+    (w.commitPlan planOptimize).toOption.map (fun t => t.segs.map (fun s => s.liveDocs.map (·.key))) = some [[4, 5, 6, 7, 0, 2]] ∧
+    (w.commitPlan planNoMerge).toOption.map (fun t => t.segs.map (fun s => s.liveDocs.map (·.key))) = some [[0, 2], [4, 5, 6, 7]] := by
+  decide
+
+/-- `partition_invisible` (2) is not vacuous: on the two-segment index above (well-formed and
+    related to `Ex.spTwo`, see the previous example) three documents added in one commit, or as
+    1 + 2 under different policies, satisfy the hypotheses. -/
+example : let d7 := restrict Ex.sc (Ex.doc 7 8); let d8 := restrict Ex.sc (Ex.doc 8 8); let d9 := restrict Ex.sc (Ex.doc 9 1)
+    let p1 : List (List DocRec × Plan) := [([d7, d8, d9], planMergeSmall)]
+    let p2 : List (List DocRec × Plan) := [([d7], planNoMerge), ([d8, d9], planOptimize)]
+    (∀ x ∈ p1, PlanOK x.2 ∧ ∀ d ∈ x.1, d.fits Ex.spTwo.schema = true) ∧
+    (∀ x ∈ p2, PlanOK x.2 ∧ ∀ d ∈ x.1, d.fits Ex.spTwo.schema = true) ∧
+    (p1.map (·.1)).flatten = (p2.map (·.1)).flatten := by
+  refine ⟨?_, ?_, rfl⟩
+  · intro x hx
+    simp only [List.mem_singleton] at hx
+    subst hx
+    exact ⟨planMergeSmall_ok, by decide⟩
+  · intro x hx
+    simp only [List.mem_cons, List.not_mem_nil, or_false] at hx
+    rcases hx with rfl | rfl
+    · exact ⟨planNoMerge_ok, by decide⟩
+    · exact ⟨planOptimize_ok, by decide⟩
 
 end WM.C06
